@@ -199,6 +199,8 @@ def rule(program, rep, rule_id, modules, floor=1, domains=None):
     from . import falsy, stale
     falsy.rule(program, rep, rule_id, modules, domains)
     stale.rule(program, rep, rule_id, modules)
+    from . import noeffect
+    noeffect.rule(program, rep, rule_id, modules)
     # one mutable object filed under every key / position and then changed
     # through one entry (dict.fromkeys(keys, []), [[]] * n)
     from .link import shared_mutable_values
